@@ -34,7 +34,8 @@ def fresh_pool(I, name_base=0):
 
 
 def meta(obj):
-    out = [obj.on_para_eq_constraint, obj.is_physicality_required, obj.mode_proj_order]
+    out = [obj.on_para_eq_constraint, obj.is_physicality_required, obj.mode_proj_order, obj.on_algo_eq_constraint, obj.on_algo_ineq_constraint,
+           obj.is_estimation_object, obj.eps_proj_physical, obj.eps_truncate_imaginary_part]
     if hasattr(obj, "nums_local_outcomes"):
         out.append(list(obj.nums_local_outcomes))
     if hasattr(obj, "shape"):
@@ -77,6 +78,18 @@ def op_list():
     ops["origin"] = lambda q: [q[k].generate_origin_obj().to_stacked_vector() for k in ("s", "p", "g", "m")] + [q["g"].generate_zero_obj().hs]
     ops["gradient"] = lambda q: [q["g"].calc_gradient(3).hs, q["p"].calc_gradient(5).vecs[1]]
     ops["convert"] = lambda q: [q["g"].convert_to_comp_basis(), q["s"].convert_basis(q["c"].comp_basis())]
+    def closures(q):
+        # building the projection closures (as the optimisers do) with explicit, non-default arguments configures nothing on the object
+        for k in ("s", "p", "g", "m"):
+            o = q[k]
+            o.func_calc_proj_physical_with_var(on_para_eq_constraint=False, mode_proj_order="ineq_eq", max_iteration=3)
+            o.func_calc_proj_physical(on_para_eq_constraint=False, mode_proj_order="ineq_eq", max_iteration=3)
+            o.func_calc_proj_eq_constraint(False)
+            o.func_calc_proj_eq_constraint_with_var(False)
+            o.func_calc_proj_ineq_constraint(False)
+            o.func_calc_proj_ineq_constraint_with_var(False)
+        return []
+    ops["closures"] = closures
     for nm in ("dict_from_hs_to_choi", "dict_from_choi_to_hs", "basis_T_sparse", "basisconjugate_sparse", "basisconjugate_basis_sparse",
                "basis_basisconjugate_T_sparse", "basis_basisconjugate_T_sparse_from_1", "basishermitian_basis_T_from_1"):
         ops["del." + nm] = (lambda nm: (lambda q: (getattr(q["c"], "delete_" + nm)(), [])[1]))(nm)
@@ -275,7 +288,9 @@ def ob_loss_reuse(kind, tomo, m, seq):
     gradient as a fresh loss object configured once -- for every variable vector x"""
     sysname = "Q1"
     d = 2
-    flag = False
+    # a sequence item is (dataset, mode) or (dataset, mode, on_para_eq_constraint of the tomography it is configured for)
+    seq = [tuple(t) + (False,) if len(t) == 2 else tuple(t) for t in seq]
+    flag = seq[-1][2]
     nv = c03.n_var(c12.TOMO_TYPE[tomo], d, m, flag)
     qt0, _, sel0, sched0 = c12.build_qt(tomo, sysname, m, flag)
     sizes = c12.sizes_of(tomo, sysname, m, sel0, sched0)
@@ -301,7 +316,8 @@ def ob_loss_reuse(kind, tomo, m, seq):
         return [SBool.of(Sym.of(t) >= 1e-3) for t in pvec]
 
     def run(I):
-        qt, tmpl, sel, sched = c12.build_qt(tomo, sysname, m, flag)
+        qts = {fl: c12.build_qt(tomo, sysname, m, fl)[0] for fl in (True, False)}
+        qt = qts[flag]
         x = vec_of(I, "x", nv)
         loss = None
         cls_kind = kind
@@ -312,15 +328,23 @@ def ob_loss_reuse(kind, tomo, m, seq):
                "se_fast": a3.StandardQTomographyBasedWeightedProbabilityBasedSquaredError,
                "re_fast": a4.StandardQTomographyBasedWeightedRelativeEntropy}[kind]
         loss = cls()
-        for (dn, mode) in seq:
-            loss.set_from_standard_qtomography_option_data(qt, option(mode), [(n, q.copy()) for n, q in D[dn]], True, False)
-        dn, mode = seq[-1]
+        for step, (dn, mode, fl) in enumerate(seq):
+            loss.set_from_standard_qtomography_option_data(qts[fl], option(mode), [(n, q.copy()) for n, q in D[dn]], True, False)
+            if step < len(seq) - 1:
+                # the object is USED between two configurations (as an estimator does): anything it memoises on first use must not survive
+                x_mid = np.array([0.7, 0.1, -0.2, 0.15][(1 if fl else 0):], dtype=np.float64)
+                loss.value(x_mid)
+                loss.gradient(x_mid)
+        dn, mode, _ = seq[-1]
         fresh = cls()
         fresh.set_from_standard_qtomography_option_data(qt, option(mode), [(n, q.copy()) for n, q in D[dn]], True, False)
         for qa in core.div_atoms():
             core.lemma(SBool.of(qa <= 1e9) & SBool.of(qa >= -1e9))
-        return [Eq(f"re-used loss after {seq} value == fresh loss", loss.value(x), fresh.value(x), 1e-7),
-                Eq("gradient == fresh loss", loss.gradient(x), fresh.gradient(x), 1e-6)]
+        v1, v2 = loss.value(x), fresh.value(x)
+        g1, g2 = loss.gradient(x), fresh.gradient(x)
+        return [Eq(f"re-used loss after {seq} value == fresh loss", v1, v2, 1e-7),
+                Holds("gradient has one entry per variable of the current tomography", np.shape(g1) == (nv,) and np.shape(g2) == (nv,)),
+                Eq("gradient == fresh loss", g1, g2, 1e-6)]
     return FnOb(reals("x", nv, -1.0, 1.0), run, assume=assume, eager_ite=True, max_paths=40, expect_nonlinear=True)
 
 
@@ -374,7 +398,7 @@ def obligations(tier):
     out = []
     ops = None
     names = ["tensor", "state.dm", "povm.mats", "gate.choi", "gate.hs_from_choi", "mproc.choi", "to_var", "verdicts", "proj.eq", "proj.eq.var", "proj.ineq", "copy",
-             "compose", "arith", "origin", "gradient", "convert", "atol.change_restore"]
+             "compose", "arith", "origin", "gradient", "convert", "atol.change_restore", "closures"]
     dels = ["del.dict_from_hs_to_choi", "del.dict_from_choi_to_hs", "del.basis_T_sparse", "del.basisconjugate_sparse", "del.basisconjugate_basis_sparse",
             "del.basis_basisconjugate_T_sparse", "del.basis_basisconjugate_T_sparse_from_1", "del.basishermitian_basis_T_from_1"]
     allops = names + dels
@@ -393,6 +417,11 @@ def obligations(tier):
                                                            "se:inverse_unbiased_covariance", "se_fast:inverse_sample_covariance", "re:identity", "re_fast:identity")], ob_data_operands, 3)
     seqs = [[("D1", "identity"), ("D2", "identity")], [("D1", "custom"), ("D2", "identity")], [("D1", "identity"), ("D1", "custom")], [("D2", "custom"), ("D1", "custom")]]
     seqs_se = seqs + [[("D1", "inverse_sample_covariance"), ("D2", "inverse_sample_covariance")], [("D1", "inverse_sample_covariance"), ("D1", "identity")]]
+    # the same loss object configured for tomographies with different numbers of variables (parametrisation flag changes)
+    flagseqs = [[("D1", "identity", True), ("D1", "identity", False)], [("D1", "identity", False), ("D2", "identity", True)]]
+    for kind in ("se", "se_fast", "re", "re_fast"):
+        for sq in flagseqs:
+            out += specs("C13.loss_reuse", [{"kind": kind, "tomo": "qst", "m": 0, "seq": [list(t) for t in sq]}], ob_loss_reuse, 3)
     for kind in ("se", "se_fast"):
         for sq in seqs_se:
             out += specs("C13.loss_reuse", [{"kind": kind, "tomo": "qst", "m": 0, "seq": [list(t) for t in sq]}], ob_loss_reuse, 2)
